@@ -257,7 +257,21 @@ fn check_value(ctx: &mut Ctx, v: Decimal) {
 
 pub fn run(ctx: &mut Ctx) {
     let prop = "C17";
-    ctx.ev.rule = "part 1: generated values (exact half-penny midpoints, ±1 in the 4th decimal around them, zero, negative, ≥ £1,000,000, tiny, 10-decimal): format_gbp's string must have the shape [-]£d,ddd.dd and read back as the value rounded to pence with midpoints away from zero; the JSON money string (the serde serialiser used by --format json and the MCP tools) must read back as the full value or that same rounding; both compared with the Lean formatter. Amounts in other currencies (USD, EUR, JPY, KWD, CHF, BHD, KRW, CLF: ISO exponents 0, 2, 3, 4; half-unit midpoints, ±1 around them, negatives): format_currency_amount reads back as the amount rounded to the currency's minor units with midpoints away from zero, compared with the Lean fmtCurrencyAmount; and the real text report's ASSET EVENTS lines for USD/JPY/KWD midpoint amounts. Quantities: format_decimal_trimmed reads back exactly; dates DD/MM/YYYY; tax years YYYY/YY. part 2: generated ledgers: every figure of the plain-text summary rows equals format_gbp of the report's value; the JSON report's strings equal the same rounding and every quantity in it (disposals, legs, holdings) is exact; both list the same years, disposals and legs; PDF: the text runs of the compiled Typst document (hook verif_text_runs): every £ figure, in template order (summary, disposal headers, Section 104 unit costs, unit prices, gross/fees/net, cost, result, holdings' average costs, echoed prices, fees and event values), equals the exact value rounded to pence with midpoints away from zero and equals the Lean fmtGbp; years, disposal headers, quantities to six decimals, dates and legs appear in report order. Non-trivial = values exactly on a half-penny, and reports with ≥ 2 years; distinct by value/ledger.".into();
+    ctx.ev.rule = "part 1: generated values (exact half-penny midpoints, ±1 in the 4th decimal around them, zero, negative, ≥ £1,000,000, tiny, 10-decimal): format_gbp's string must have the shape [-]£d,ddd.dd and read back as the value rounded to pence with midpoints away from zero; the JSON money string (the serde serialiser used by --format json and the MCP tools) must read back as the full value or that same rounding; both compared with the Lean formatter. Amounts in other currencies (USD, EUR, JPY, KWD, CHF, BHD, KRW, CLF: ISO exponents 0, 2, 3, 4; half-unit midpoints, ±1 around them, negatives): format_currency_amount reads back as the amount rounded to the currency's minor units with midpoints away from zero, compared with the Lean fmtCurrencyAmount; and the real text report's ASSET EVENTS lines for USD/JPY/KWD midpoint amounts. Quantities: format_decimal_trimmed reads back exactly; dates DD/MM/YYYY; tax years YYYY/YY in text, Display and JSON for every year 1900–2100. part 2: generated ledgers: every figure of the plain-text summary rows equals format_gbp of the report's value; the JSON report's strings equal the same rounding and every quantity in it (disposals, legs, holdings) is exact; both list the same years, disposals and legs; PDF: the text runs of the compiled Typst document (hook verif_text_runs): every £ figure, in template order (summary, disposal headers, Section 104 unit costs, unit prices, gross/fees/net, cost, result, holdings' average costs, echoed prices, fees and event values), equals the exact value rounded to pence with midpoints away from zero and equals the Lean fmtGbp; years, disposal headers, quantities to six decimals, dates and legs appear in report order. Non-trivial = values exactly on a half-penny, and reports with ≥ 2 years; distinct by value/ledger.".into();
+
+    // the tax-year label of every front-end, for every year: JSON (serde) and text agree on YYYY/YY with a
+    // two-digit second part (2008/09, 1999/00, 2099/00)
+    for y in 1900u16..=2100 {
+        ctx.ev.evaluations += 1;
+        let Ok(p) = cgt_core::TaxPeriod::new(y) else { continue };
+        let js = serde_json::to_value(p).ok().and_then(|v| v.as_str().map(|x| x.to_string())).unwrap_or_default();
+        let want = format!("{y}/{:02}", (y as u32 + 1) % 100);
+        let text = cgt_format::format_tax_year(y);
+        if js != want || text != want || format!("{p}") != want {
+            ctx.ev.violation("oracle", format!("tax year {y}: JSON shows \"{js}\", text shows \"{text}\", Display shows \"{p}\"; all must read {want}"), format!("# property C17\n# tax-year label\nyear {y}\n"));
+            break;
+        }
+    }
     let mut r = Rng::new(ctx.seed ^ 0xC17);
     let n = ctx.n(1500, 80_000);
     for _ in 0..n { let v = gen_value(&mut r); check_value(ctx, v); }
